@@ -183,6 +183,8 @@ FIXED = [
     ("C07", "75b39ea", "comparisons / maximum / minimum of operands that all carry the same name tuple stored out of index order (symbols('q2 q1')) ordered monomials by the stored columns: with sort_graded=False, q1**2 < q2 is True but False for the same polynomials stored over (q2, q1) (found by the quick sweep at VERIF_SEED=6)"),
     ("C19", "a15c0d3", "lead_exponent / lead_coefficient / sortable_proxy of a polynomial whose names are stored out of index order picked the leading term by the stored column order"),
     ("C03", "c3b2c18", "polynomial_from_attributes with names omitted and retain_names=False dropped the unused exponent columns first and numbered the default names afterwards: exponents [[0, 1]] became 2*q0 instead of 2*q1 (found after a surviving mutant showed that no driver passed names as a string / omitted them)"),
+    ("C10", "22affad", "det of matrices of order >= 4 was wrong (cyclic column order without the cofactor sign; a 4x4 integer matrix with determinant 28 gave 0); reported as a side remark by two seeding sub-agents, then reproduced by the 4x4 vectors added to MC_LinAlg (37 rejections)"),
+    ("C10", "05be182", "numpy.add.reduce(a) / numpy.add.accumulate(a) without an axis returned the total / the flattened running sum instead of working along the first axis as numpy does (reported as a side remark by a seeding sub-agent, reproduced once the driver omitted the axis: 34 rejections)"),
     ("C03", "64ca5a4", "monomial over an empty index range in D > 1 dimensions returned an object whose storage key width (1) did not match its D names"),
 ]
 
